@@ -1,4 +1,5 @@
 import ClusterVerif.Lemmas.C03
+import ClusterVerif.Lemmas.C03Sort
 
 /-!
 # C03 — allocations honour the replication factors and use only healthy peers
@@ -74,6 +75,15 @@ theorem allowed_holds (i : Input) (o : Output) (hw : wf i = true) (h : allowed i
               · push_cast at hnum ⊢; omega
               · push_cast at hnum ⊢; omega
     · simp [hpos]
+
+/-- The deterministic model (`allocate`: insertion sort, fixed tie-break and map order) always
+    produces an output the relation admits: the relation is inhabited on every well-formed input,
+    so `allowed_holds` is not vacuous anywhere, and the functional model satisfies the property. -/
+theorem allocate_allowed (i : Input) (hw : wf i = true) : allowed i (allocate i) = true :=
+  allocate_allowed_aux i hw
+
+theorem allocate_holds (i : Input) (hw : wf i = true) : holds i (allocate i) = true :=
+  allowed_holds i (allocate i) hw (allocate_allowed i hw)
 
 /-- With factor pairs accepted by `isReplicationFactorValid`, `allocate` never
     reaches the out-of-range slice expression. -/
